@@ -546,6 +546,10 @@ def run_shard(args):
             for p in run_dynamic_ids(seed * 7 + i):
                 oracle_bad.append({'desc': p['desc'], 'diffs': [['dynamic-ids', p['msg']]]})
         stats['dynamic_ids_cases'] = max(2, n // 5)
+        for i in range(max(2, n // 4)):
+            for p in run_checkids_widen(seed * 47 + i):
+                oracle_bad.append({'desc': p['desc'], 'diffs': [['checkids-widen', p['msg']]]})
+        stats['checkids_widen_cases'] = max(2, n // 4)
     sample = next(({'desc': r['desc'], 'ids': r['real'].get('ids')} for r in recs if 'real' in r), None)
     return stats, oracle_bad, model_bad, hash_bad, sample, memo_bad
 
@@ -593,4 +597,47 @@ def run_typed_split(seed):
                 return problems
     except Exception as e:
         problems.append({'desc': d, 'msg': 'Split with non-string new ids raised ' + exc_name(e) + ': ' + str(e)[:150]})
+    return problems
+
+
+def run_checkids_widen(seed):
+    """... >> CheckIds >> a Transform that WIDENS `ids` (re-adds excluded entries, adds foreign ones) >> Filter: the predicate reads fields
+    that CheckIds guards, so listing the ids raises KeyError as soon as a widened id is outside the ids CheckIds saw; with nothing
+    foreign the kept ids are the reference's (C15: CheckIds rejects every key outside ids, whoever asks)"""
+    rng = random.Random(seed)
+    ids = ['i1', 'i2', 'i3', 'i4']
+    keep = rng.sample(ids, rng.randint(2, 4))
+    added = rng.choice([[], [], ['zz'], [i for i in ids if i not in keep][:1], ['zz', 'i1']])
+    added = [a for a in added if a not in keep]
+    src = {'k': 'source', 'cls': 'CW', 'ids': ids, 'params': {}, 'cargs': {}, 'defaults': {},
+           'fields': {'x': {'args': ['i'], 'f': 'CW.x'}, 'kk': {'args': ['i'], 'f': 'CW.kk', 'table': [[[i], 'gh'[n % 2]] for n, i in enumerate(ids + ['zz'])]}}}
+    kept = [i for i in ids if i in keep]
+    widened = kept + added
+    widen = {'k': 'transform', 'cls': 'CWW', 'fields': {'ids': {'args': ['ids'], 'f': 'CWW.ids', 'table': [[[kept], widened]], 'meta': True}},
+             'params': {}, 'cargs': {}, 'defaults': {}, 'inherit': True}
+    pred_field = rng.choice(['kk', 'x', 'id'])
+    pred = {'k': 'filter', 'f': 'cwpred', 'args': [pred_field]}
+    if pred_field == 'kk':
+        pred['table'] = [[['g'], True], [['h'], False]]         # otherwise symbolic: every verdict is truthy
+    layers = [src, {'k': 'keep', 'ids': keep}, {'k': 'check_ids'}, widen, pred]
+    d = {'k': 'chain', 'flavour': 'chain', 'layers': layers}
+    problems = []
+    try:
+        b = Builder()
+        layer = b.layer(d)
+        try:
+            got = ('ok', tuple(layer.ids))
+        except Exception as e:
+            got = ('err', exc_name(e))
+        if added:
+            want = ('err', 'KeyError')          # also `id` is a field CheckIds guards
+        elif pred_field == 'kk':
+            want = ('ok', tuple(i for i in widened if 'gh'[(ids + ['zz']).index(i) % 2] == 'g'))
+        else:
+            want = ('ok', tuple(widened))
+        if got != want:
+            problems.append({'desc': d, 'msg': f'keep{keep} >> CheckIds >> ids widened by {added} >> Filter({pred_field}): ids gives {got}, expected {want} '
+                                               f'(a field guarded by CheckIds raises KeyError for every key outside the ids it saw)'})
+    except Exception as e:
+        problems.append({'desc': d, 'msg': 'CheckIds/widen scenario raised ' + exc_name(e) + ': ' + str(e)[:150]})
     return problems
